@@ -53,4 +53,4 @@ def main(argv):
         import thorough
         extra = thorough.run(ctx, prop, insts, reports)
     p = PROPS[prop]
-    return engine.finish(prop, ctx, insts, reports, time.time() - t0, p["decided"], p["not_decided"], extra=extra, seed=seed)
+    return engine.finish(prop, ctx, insts, reports, time.time() - t0, p["decided"], p["not_decided"], extra=extra, seed=seed, scratch=bool(a.repo) and os.path.realpath(a.repo) != os.path.realpath(factsmod.REPO))
